@@ -393,7 +393,7 @@ def _write_mc_cfg(ctx: Ctx, name: str, **kw: str) -> str:
     if emit:
         text += "CONSTRAINT Emit\n"
     else:
-        text += ("VIEW view\nINVARIANT TypeOK\nINVARIANT EnvCovers\nINVARIANT Transparent\nINVARIANT CacheWellFormed\n"
+        text += ("VIEW view\nINVARIANT TypeOK\nINVARIANT EnvCovers\nINVARIANT Transparent\nINVARIANT RootKeyDecrypts\nINVARIANT CacheWellFormed\n"
                  "INVARIANT ObtainedIsCached\nPROPERTY NoRepeatRpc\nPROPERTY RootKeyIsOffline\nPROPERTY CacheMonotone\nPROPERTY FailedCallsLeaveCacheUnchanged\n")
     p = ctx.rundir / name
     p.write_text(text)
